@@ -24,16 +24,21 @@ def extra(cases, verdicts):
     n_open = sum(1 for c in cases if c["veh"]["end"] is None)
     ex = sum(1 for c in cases if verdicts.get(c["id"], {}).get("info", {}).get("exists_feasible"))
     anyok = sum(1 for c in cases if (c.get("impl") or {}).get("any") is not None)
+    inthm = sum(1 for c in cases if verdicts.get(c["id"], {}).get("info", {}).get("in_completeness_theorem"))
+    inthm_ex = sum(1 for c in cases if verdicts.get(c["id"], {}).get("info", {}).get("in_completeness_theorem")
+                   and verdicts.get(c["id"], {}).get("info", {}).get("exists_feasible"))
     multiwin = sum(1 for c in cases if c.get("job") and sum(len(p["tws"]) for p in c["job"]["places"]) > 1)
     return {"input_shape": {"open_tours": n_open, "closed_tours": len(cases) - n_open, "exists_feasible_position": ex,
-                            "impl_any_success": anyok, "jobs_with_several_windows_or_places": multiwin,
+                            "impl_any_success": anyok,
+                            "cases_within_hypotheses_of_completeness_theorem": inthm,
+                            "of_these_with_a_feasible_position": inthm_ex, "jobs_with_several_windows_or_places": multiwin,
                             "tour_len_hist": {str(k): sum(1 for c in cases if len(c["tour"]) == k) for k in range(0, 7)}}}
 
 
 CLAIMED = True
 
 PROP = dict(
-    proof_modules=["VrpProofs.C06", "VrpProofs.C06Cap", "VrpProofs.C06CapVec"], model_modules=["VrpModel.Route", "VrpModel.C06"],
+    proof_modules=["VrpProofs.C06", "VrpProofs.C06Cap", "VrpProofs.C06CapVec", "VrpProofs.C06Complete"], model_modules=["VrpModel.Route", "VrpModel.C06"],
     drv="drv_c06", bin="c06", compare=compare, nontrivial=nontrivial, extra_evidence=extra,
     rule="tours of 0..6 activities feasible by construction (windows placed around the simulated arrival with slack 0..1000, "
          "capacity = max load + 0..5), open and closed, static/dynamic/replacement/mixed demand in 1-2 dimensions, candidate job with "
@@ -56,7 +61,10 @@ META = dict(
          "tour: evalTime_never_stops); the leg/place/window scan only returns placements the constraint model accepted (evalJob_accepted, "
          "evalJob_sound_time) and, for jobs without demand, is COMPLETE as a whole: if the simulation finds any feasible leg, place and window, Any "
          "succeeds - the stop verdict is unreachable at every leg, an accepted placement is never forgotten, the route-level test lets the job "
-         "through (scanLegs_finds, evalRoute_of_feasible_time, evalJob_any_complete_time'); capacity: the test on cached max-past/max-future/current implies the full load profile stays within "
+         "through (scanLegs_finds, evalRoute_of_feasible_time, evalJob_any_complete_time'), and for jobs WITH demand in any number of dimensions "
+         "(C06Complete: hdv_none_of_components, cap_complete_vec, cap_exact_vec, static_clause_mono - the only stop verdict of the capacity test is monotone in the "
+         "leg, so no leg before an admissible one stops the scan -, evalActivity_ok_of_feasible, route_precheck_vec, evalRoute_of_feasible, "
+         "scanLegs_finds_upto, evalJob_any_complete; evalJob_any_complete_spec: existsFeasible => Any succeeds); capacity: the test on cached max-past/max-future/current implies the full load profile stays within "
          "capacity for every demand shape, in every dimension (cap_sound1 for one dimension; cap_sound_vec for the executable vector model with any "
          "number of dimensions; cap_complete1 / cap_exact1: on a tour with non-negative loads and for demands without a static pickup next to a "
          "larger dynamic delivery the O(1) test refuses nothing the profile admits, the caches being attained - runMax1_attained, "
@@ -65,9 +73,10 @@ META = dict(
          "Tie: exact differential run (position, place, window, cost vector, schedule) of the real eval_job_insertion_in_route for Any and "
          "every Concrete(p) against the model, plus brute-force simulation oracles on the implementation's own placements (soundness for "
          "single and multi-task jobs, completeness of Any for single-task jobs).",
-    note=COMMON_NOTE + " Partial: whole-evaluator completeness is decided by the brute-force oracle on generated cases (the theorem covers the "
-         "time test, capacity soundness in any number of dimensions and capacity exactness in one dimension for the demand shapes the readers "
-         "produce: cap_complete1, cap_exact1, and completeness of the whole scan for jobs without demand); the combination of scan completeness "
-         "with capacity for jobs WITH demand is decided by the oracle.",
+    note=COMMON_NOTE + " Whole-evaluator completeness for single-task jobs is a theorem (evalJob_any_complete, evalJob_any_complete_spec) under input "
+         "hypotheses only: non-negative travel times and durations, a feasible base tour with non-negative loads, and in every dimension no "
+         "static pickup next to a larger dynamic delivery (the shapes the readers produce; `example`s show that both capacity hypotheses are "
+         "needed - without them the real O(1) test is incomplete by design). Partial: multi-task jobs (eval_multi is a greedy sequential search: "
+         "soundness only, by the oracle, as the property states), reload intervals and stochastic leg sampling are outside the model.",
     technique="Lean 4 induction over tour suffixes (omega) + exact differential correspondence with the real evaluator + brute-force simulation oracle",
 )
